@@ -52,6 +52,13 @@ def add_steering(pkg):
     first.steps.append(("steersib", M.Prim("int32"), False))
     sib.steps.append(("steersib", M.Prim("int64"), False))
     pkg.files[fn].append(sib)
+    # ... and two more whose names differ from each other in the capitalisation of an acronym only (ImageRGB / ImageRgb): whatever a
+    # generator derives from a protocol's name must still tell them apart
+    for suffix_, t_ in (("RGB", "int16"), ("Rgb", "string")):
+        v_ = copy.deepcopy(first)
+        v_.name = first.name + suffix_
+        v_.steps[-1] = ("steersib", M.Prim(t_), False)
+        pkg.files[fn].append(v_)
 
 
 SIBLING = "Sibling"
@@ -345,7 +352,7 @@ def run_twin(task, rng, pkg_b, edit, a_streams, want_cpp, ybin, root, quick, sta
                     jobs.append(("stream written by the near-identical model's own C++ writer (%s) delivered" % edit, mcls, "binary", a_streams[proto.name][3]))
             for other in ([] if only_misdelivery else protos):
                 if other.name != proto.name:
-                    sib = other.name == proto.name + SIBLING or proto.name == other.name + SIBLING
+                    sib = other.name == proto.name + SIBLING or proto.name == other.name + SIBLING or other.name.lower() == proto.name.lower()
                     cls = "misdelivery_sibling_protocol" if sib else "misdelivery_unrelated"
                     jobs.append(("stream of %s protocol %s delivered" % ("sibling" if sib else "unrelated", other.name), cls, "binary", own[other.name][0]))
                     jobs.append(("NDJSON stream of %s protocol %s delivered" % ("sibling" if sib else "unrelated", other.name), cls, "ndjson", own[other.name][1]))
